@@ -56,7 +56,7 @@ def run(chk, repo, tier):
     no_hidden_state(chk, repo, 'C08')
     chk.clause('C08-a', 'every cell of the documented multiplication table equals plane._mul_ptype_table', 15)
     chk.clause('C08-b', 'the predicates consult that table, Plane.multiply asks them with (wavefront, plane) and '
-                        'refuses with TypeError; no function object is used as a truth value', 4)
+                        'refuses with TypeError; no function object is used as a truth value', 3)
     chk.clause('C08-c', 'propagation allowed exactly from pupil/image and swaps them (all 5 types)', 5)
     chk.clause('C08-d', 'every documented plane class is constructed with its documented ptype', 7)
     chk.clause('C08-e', 'only the validated sites write a wavefront/plane ptype', 4)
